@@ -673,6 +673,41 @@ func dedupShape(p *load.Program, d *ssa.Function) string {
 			carried = true
 		}
 	}
+	// or the two operands are adjacent elements of the input: in[i-1] and in[i]
+	if len(call.Call.Args) == 2 {
+		lin := kit.NewLin(d)
+		ia := func(v ssa.Value) *ssa.IndexAddr {
+			v = kit.Strip(v)
+			if x, ok := v.(*ssa.IndexAddr); ok {
+				return x
+			}
+			if u, ok := v.(*ssa.UnOp); ok {
+				if x, ok := u.X.(*ssa.IndexAddr); ok {
+					return x
+				}
+			}
+			// a value receiver gets a copy: `*(&in[i-1])` stored into a local
+			if al, ok := v.(*ssa.Alloc); ok {
+				for _, ref := range *al.Referrers() {
+					if st, ok := ref.(*ssa.Store); ok && st.Addr == ssa.Value(al) {
+						if u, ok := st.Val.(*ssa.UnOp); ok {
+							if x, ok := u.X.(*ssa.IndexAddr); ok {
+								return x
+							}
+						}
+					}
+				}
+			}
+			return nil
+		}
+		a0, a1 := ia(call.Call.Args[0]), ia(call.Call.Args[1])
+		if a0 != nil && a1 != nil && kit.Strip(a0.X) == kit.Strip(a1.X) {
+			df := lin.Of(a0.Index).Sub(lin.Of(a1.Index))
+			if k, isC := df.IsConst(); isC && (k == 1 || k == -1) {
+				carried = true
+			}
+		}
+	}
 	if !carried {
 		return "the hash compared against is never updated inside the loop: every element is compared with the zero value and nothing is removed"
 	}
